@@ -1235,14 +1235,25 @@ func onCloseParagraph(source []byte, originalBlock *Block) []*Block {
 	var setextOrphanParagraph *Block
 	if originalBlock.Kind() == SetextHeadingKind {
 		blockStart := originalBlock.inlineChildren[len(originalBlock.inlineChildren)-1].Span().End
-		lineStart := blockStart
-		for source[lineStart] == ' ' || source[lineStart] == '\t' {
-			lineStart++
+		// The underline is the last line of the block.
+		// It may be preceded by container markers (e.g. "> ") and indentation,
+		// so find its start by scanning backward from the end of the block.
+		lineStart := originalBlock.Span().End
+		for lineStart > blockStart && (source[lineStart-1] == '\n' || source[lineStart-1] == '\r') {
+			lineStart--
+		}
+		for lineStart > blockStart && (source[lineStart-1] == ' ' || source[lineStart-1] == '\t') {
+			lineStart--
+		}
+		if lineStart > blockStart {
+			for c := source[lineStart-1]; lineStart > blockStart && source[lineStart-1] == c; {
+				lineStart--
+			}
 		}
 		setextOrphanParagraph = &Block{
 			kind: ParagraphKind,
 			span: Span{
-				Start: blockStart,
+				Start: lineStart,
 				End:   -1,
 			},
 			inlineChildren: []*Inline{{
